@@ -84,14 +84,14 @@ pub fn run_scenario(events: &[&str]) -> Obs {
             o.closed = true;
         } else if ev.starts_with("poll") {
             // children that answered Pending become ready and fire the wakers they hold
-            let ws: Vec<_> = std::mem::take(&mut log.lock().unwrap().wakers);
+            let ws: Vec<_> = std::mem::take(&mut log.lock().unwrap_or_else(|e| e.into_inner()).wakers);
             for (_, _, w) in ws { w.wake(); }
             if !first && wk.0.load(Ordering::SeqCst) == 0 { segs.push("skip".into()); o.annotated.push("poll".into()); continue; }
             first = false;
             wk.0.store(0, Ordering::SeqCst);
-            let start = log.lock().unwrap().events.len();
+            let start = log.lock().unwrap_or_else(|e| e.into_inner()).events.len();
             let res = catch(|| topic.as_mut().poll(&mut cx));
-            let evs: Vec<Ev<u32>> = log.lock().unwrap().events[start..].to_vec();
+            let evs: Vec<Ev<u32>> = log.lock().unwrap_or_else(|e| e.into_inner()).events[start..].to_vec();
             o.max_inner = o.max_inner.max(evs.len());
             let order: Vec<String> = evs.iter().filter_map(|e| match e { Ev::StreamItem(i, _) | Ev::StreamErr(i) | Ev::StreamPending(i) | Ev::StreamEnd(i) => Some(i.to_string()), _ => None }).collect();
             o.annotated.push(if order.is_empty() { "poll".to_string() } else { format!("poll@{}", order.join(".")) });
@@ -108,7 +108,7 @@ pub fn run_scenario(events: &[&str]) -> Obs {
                 }
             }
             for k in pending_adopt.drain(..) { o.adopt_by[k] = o.accepted.len(); }
-            let holders: Vec<String> = log.lock().unwrap().wakers.iter().map(|(c, i, _)| format!("{c}{i}")).collect();
+            let holders: Vec<String> = log.lock().unwrap_or_else(|e| e.into_inner()).wakers.iter().map(|(c, i, _)| format!("{c}{i}")).collect();
             let r = match res {
                 Ok(Poll::Pending) => {
                     o.last_pending = true;
